@@ -827,7 +827,9 @@ func (c *clipperBase) doHorizontal(horz *Active) {
 		}
 
 		for ae != nil {
-			if ae.vertexTop == vertexMax {
+			// an open path may double back along the same horizontal: its maxima pair is then
+			// passed on the way and only ends the path once the last horizontal is reached
+			if ae.vertexTop == vertexMax && (!horzIsOpen || horz.vertexTop == vertexMax) {
 				if isHotEdge(horz) && isJoined(ae) {
 					c.split(ae, ae.top)
 				}
